@@ -234,7 +234,11 @@ def call_op(op, args, recv, arg, emb, pool):
         return recv.editTimestamps(g(args["o"]), "silence").editTimestamps(-g(args["o"]), "silence")
     if op == "insertEntry":
         kind = "I" if "s" in args["x"] else "P"
-        recv.insertEntry(mk_entry(args["x"], kind, emb, pool), args["cmode"], args["rmode"])
+        entry = mk_entry(args["x"], kind, emb, pool)
+        if args.get("padlabel"):
+            # the caller hands over a label with surrounding white space: it must be stored trimmed (C05)
+            entry = type(entry)(*(list(entry[:-1]) + [" \t" + entry[-1] + "  "]))
+        recv.insertEntry(entry, args["cmode"], args["rmode"])
         return None
     if op == "deleteEntry":
         kind = "I" if "s" in args["x"] else "P"
